@@ -27,7 +27,8 @@ ASSUMPTIONS = ["LBytes/LBuf reproduce bytes/bytearray semantics for the operatio
                "on the concrete vectors below"]
 EXPLANATION = "lifted real chunked decoder on symbolic content; shape and split index case-split"
 
-_A = lift.lift("twisted.web._abnf", names=["_ishexdigits", "_hexint"])
+# whole module, with `re` mapped to the text-regex shim, so that a regex-based rewrite of the helpers is lifted too
+_A = lift.lift("twisted.web._abnf", use_re=True)
 L = lift.lift("twisted.web.http", names=["_ChunkedTransferDecoder", "toChunk", "_chunkExtChars"],
               overrides={"_hexint": _A._hexint, "_ishexdigits": _A._ishexdigits,
                          "maxChunkSizeLineLength": 8})
